@@ -27,5 +27,6 @@ CONSTANTS
   BugBoundKeepsFirst = FALSE
   BugAsyncGenWrapped = TRUE
   FixedDeclaredReturn = FALSE
+  FixedAsyncGenInferred = TRUE
 INVARIANT ShapeViewsAgree
 CHECK_DEADLOCK FALSE
